@@ -65,6 +65,7 @@ def run(chk):
     from props import _state
     _state.run_state(chk)
     _state.run_length_wrap(chk)
+    _state.run_alloc_refused(chk)
     _state.run_param_batch(chk)
     from props import C16 as _c16
     _c16.run_rejected_adds(chk, 150 if chk.tier == "quick" else 4000)   # rejected Model::add calls leave nothing behind
